@@ -11,6 +11,7 @@
 //	walk    IncPath from hop 0 until it fails
 //	path    serialized paths: Decoded/Raw DecodeFromBytes, Reverse (once, twice), ToRaw, ToDecoded
 //	revu8   Decoded.Reverse with hand-set uint8 pointers
+//	seq     operation sequences on one Raw and one Decoded object, observed after every step
 package main
 
 import (
@@ -396,7 +397,10 @@ func main() {
 		"+ sampled shapes; thorough: all 43 744 accepted shapes = every accepted meta value); walk: IncPath from hop 0 to the end; " +
 		"word/enc: meta header words incl. reserved bits / arbitrary uint8 fields; path: serialized paths with sampled contents " +
 		"(valid, truncated, over-long, invalid shapes, pointers valid or arbitrary) through Decoded and Raw, Reverse once and twice, " +
-		"ToRaw/ToDecoded; revu8: Decoded.Reverse with hand-set uint8 pointers. non-trivial = word/enc always; accept rows with at " +
+		"ToRaw/ToDecoded; revu8: Decoded.Reverse with hand-set uint8 pointers; seq: operation sequences (4-12 steps: Raw.IncPath / " +
+		"Base.IncPath incl. the failing one at the end, Reverse, Reverse again, ToDecoded/ToRaw, SetInfoField/SetHopField, pointers " +
+		"assigned directly) on ONE Raw and ONE Decoded object decoded from the same buffer (pointers valid, arbitrary, or beyond the " +
+		"last hop), both objects observed through the public API after every step. non-trivial = word/enc always; accept rows with at " +
 		"least one accepted triple; shapes/walks with >= 2 segments; paths that decode and have >= 2 hops"
 	rng := vgen.NewRand(run.Seed)
 
@@ -569,6 +573,13 @@ func main() {
 	for i := 0; i < nr; i++ {
 		r := rng.Fork(uint64(400000 + i))
 		jobs = append(jobs, func() { revU8Case(run, r) })
+	}
+
+	// ---- 8. operation sequences on one Raw and one Decoded object
+	nq := run.Count(260, 6000)
+	for i := 0; i < nq; i++ {
+		r := rng.Fork(uint64(600000 + i))
+		jobs = append(jobs, func() { seqCase(run, r, i) })
 	}
 
 	// ---- 3. accept tables, interleaved evenly among the other jobs (so that the shards are balanced)
@@ -896,4 +907,262 @@ func revU8Case(run *vgen.Run, r *vgen.Rand) {
 	run.Add("revu8", vgen.App("Meta.CRevU8", p.term(), d1.term(), d2.term()),
 		fmt.Sprint(s, ci, ch, buf[4:]), true,
 		map[string]any{"seglen": []uint32{s.s0, s.s1, s.s2}, "ptr": []uint8{ci, ch}, "rev": d1.short(), "rev2": d2.short()})
+}
+
+// ---------------------------------------------------------------- operation sequences
+
+type seqOp struct {
+	Kind    int // 0 inc, 1 rev, 2 setptr, 3 conv, 4 setinfo, 5 sethop
+	ViaBase bool
+	CI, CH  uint8
+	Idx     int
+	Info    infoV
+	HopID   uint64
+	Hop     path.HopField
+}
+
+func (o seqOp) term() string {
+	switch o.Kind {
+	case 0:
+		return vgen.App("Meta.OInc", vgen.B(o.ViaBase))
+	case 1:
+		return "Meta.ORev"
+	case 2:
+		return vgen.App("Meta.OSetPtr", vgen.N(uint64(o.CI)), vgen.N(uint64(o.CH)))
+	case 3:
+		return "Meta.OConv"
+	case 4:
+		return vgen.App("Meta.OSetInfo", vgen.N(uint64(o.Idx)), infoTerm(o.Info))
+	}
+	return vgen.App("Meta.OSetHop", vgen.N(uint64(o.Idx)), vgen.N(o.HopID))
+}
+
+func (o seqOp) name() string {
+	return [...]string{"inc", "rev", "setptr", "conv", "setinfo", "sethop"}[o.Kind]
+}
+
+type stepObs struct {
+	Code uint64
+	P    *pathV
+	Conv *pathV
+}
+
+func (s stepObs) term() string {
+	return vgen.App("Meta.mk_sobs", vgen.N(s.Code), s.P.term(), optTerm(s.Conv))
+}
+
+func incCode(err error, numINF int) uint64 {
+	switch {
+	case err == nil:
+		return 0
+	case numINF == 0:
+		return 1
+	}
+	return 2
+}
+
+func errCode(err error) uint64 {
+	if err != nil {
+		return 1
+	}
+	return 0
+}
+
+// applyRaw performs one operation on the Raw object through the public API.
+func applyRaw(rw *scion.Raw, o seqOp, hi hopIndex) stepObs {
+	var code uint64
+	var conv *pathV
+	panicked, _ := vgen.Recover(func() {
+		switch o.Kind {
+		case 0:
+			if o.ViaBase {
+				code = incCode(rw.Base.IncPath(), rw.NumINF)
+			} else {
+				code = incCode(rw.IncPath(), rw.NumINF)
+			}
+		case 1:
+			_, err := rw.Reverse()
+			code = errCode(err)
+		case 2:
+			rw.PathMeta.CurrINF, rw.PathMeta.CurrHF = o.CI, o.CH
+		case 3:
+			d, err := rw.ToDecoded()
+			code = errCode(err)
+			if err == nil {
+				conv = viewDecoded(d, hi)
+			}
+		case 4:
+			code = errCode(rw.SetInfoField(path.InfoField{Peer: o.Info.Peer, ConsDir: o.Info.ConsDir,
+				SegID: o.Info.SegID, Timestamp: o.Info.TS}, o.Idx))
+		case 5:
+			code = errCode(rw.SetHopField(o.Hop, o.Idx))
+		}
+	})
+	if panicked {
+		code = 3
+	}
+	return stepObs{Code: code, P: viewRaw(rw, hi), Conv: conv}
+}
+
+// applyDec performs the same operation on the Decoded object.
+func applyDec(d *scion.Decoded, o seqOp, hi hopIndex) stepObs {
+	var code uint64
+	var conv *pathV
+	panicked, _ := vgen.Recover(func() {
+		switch o.Kind {
+		case 0:
+			code = incCode(d.IncPath(), d.NumINF)
+		case 1:
+			_, err := d.Reverse()
+			code = errCode(err)
+		case 2:
+			d.PathMeta.CurrINF, d.PathMeta.CurrHF = o.CI, o.CH
+		case 3:
+			r, err := d.ToRaw()
+			code = errCode(err)
+			if err == nil {
+				conv = viewRaw(r, hi)
+			}
+		case 4:
+			if o.Idx < len(d.InfoFields) {
+				d.InfoFields[o.Idx] = path.InfoField{Peer: o.Info.Peer, ConsDir: o.Info.ConsDir,
+					SegID: o.Info.SegID, Timestamp: o.Info.TS}
+			} else {
+				code = 1
+			}
+		case 5:
+			if o.Idx < len(d.HopFields) {
+				d.HopFields[o.Idx] = o.Hop
+			} else {
+				code = 1
+			}
+		}
+	})
+	if panicked {
+		code = 3
+	}
+	return stepObs{Code: code, P: viewDecoded(d, hi), Conv: conv}
+}
+
+func seqCase(run *vgen.Run, r *vgen.Rand, i int) {
+	s := genSmallShape(r)
+	if r.Chance(1, 8) {
+		s = genShape(r)
+	}
+	if i == 1 {
+		s = shape{0, 0, 0}
+	}
+	ninf := 0
+	for _, x := range []uint32{s.s0, s.s1, s.s2} {
+		if x > 0 {
+			ninf++
+		}
+	}
+	nhops := int(s.s0 + s.s1 + s.s2)
+	ci, ch := validPtr(r, s)
+	ptrMode := "valid"
+	switch r.Intn(10) {
+	case 0, 1: // hop pointer beyond the last hop (decoding does not check)
+		if nhops < 63 {
+			ch, ptrMode = uint32(r.Range(nhops, 63)), "beyond-last-hop"
+		}
+	case 2:
+		ci, ch, ptrMode = uint32(r.Intn(4)), uint32(r.Intn(64)), "arbitrary"
+	}
+	w := word(ci, ch, uint32(r.Intn(64))*uint32(r.Intn(2)), s.s0, s.s1, s.s2)
+	buf := make([]byte, 4+8*ninf+12*nhops)
+	copy(buf, wbytes(w))
+	copy(buf[4:], r.Bytes(len(buf)-4))
+	var is []infoV
+	for k := 0; k < ninf; k++ {
+		o := 4 + 8*k
+		if !r.Chance(1, 5) {
+			buf[o] &= 0x3
+			buf[o+1] = 0
+		}
+		binary.BigEndian.PutUint16(buf[o+2:], uint16(r.Intn(1000)))
+		binary.BigEndian.PutUint32(buf[o+4:], uint32(r.Intn(100000)))
+		var f path.InfoField
+		_ = f.DecodeFromBytes(buf[o:])
+		is = append(is, infoV{f.Peer, f.ConsDir, f.SegID, f.Timestamp})
+	}
+	hi := hopIndex{}
+	var hs []uint64
+	for k := 0; k < nhops; k++ {
+		o := 4 + 8*ninf + 12*k
+		binary.BigEndian.PutUint16(buf[o+2:], uint16(k+1))
+		var h path.HopField
+		_ = h.DecodeFromBytes(buf[o:])
+		hi[hopKey(&h)] = uint64(k)
+		hs = append(hs, uint64(k))
+	}
+	// the operations
+	var ops []seqOp
+	newHop := func() seqOp {
+		id := uint64(1000 + len(ops))
+		h := path.HopField{IngressRouterAlert: r.Bool(), EgressRouterAlert: r.Bool(), ExpTime: uint8(r.U64()),
+			ConsIngress: uint16(id), ConsEgress: uint16(r.U64())}
+		copy(h.Mac[:], r.Bytes(6))
+		hi[hopKey(&h)] = id
+		return seqOp{Kind: 5, Idx: r.Intn(nhops + 2), HopID: id, Hop: h}
+	}
+	if r.Chance(1, 3) {
+		// walk to the end (the last IncPath fails), then reverse twice and convert
+		steps := nhops - int(ch)
+		if steps < 1 || steps > 8 {
+			steps = r.Range(1, 4)
+		}
+		for k := 0; k < steps; k++ {
+			ops = append(ops, seqOp{Kind: 0, ViaBase: r.Chance(1, 3)})
+		}
+		ops = append(ops, seqOp{Kind: 1}, seqOp{Kind: 1}, seqOp{Kind: 3})
+	}
+	for n := r.Range(4, 8); n > 0; n-- {
+		switch k := r.Intn(20); {
+		case k < 7:
+			ops = append(ops, seqOp{Kind: 0, ViaBase: r.Chance(1, 3)})
+		case k < 12:
+			ops = append(ops, seqOp{Kind: 1})
+		case k < 14:
+			o := seqOp{Kind: 2, CI: uint8(r.Intn(4)), CH: uint8(r.Intn(64))}
+			if r.Chance(2, 3) && nhops > 0 {
+				vi, vh := validPtr(r, s)
+				o.CI, o.CH = uint8(vi), uint8(vh)
+			}
+			ops = append(ops, o)
+		case k < 16:
+			ops = append(ops, seqOp{Kind: 3})
+		case k < 18:
+			ops = append(ops, seqOp{Kind: 4, Idx: r.Intn(ninf + 2),
+				Info: infoV{r.Bool(), r.Bool(), uint16(r.Intn(1000)), uint32(r.Intn(100000))}})
+		default:
+			ops = append(ops, newHop())
+		}
+	}
+	if !run.Want() {
+		run.Skip()
+		return
+	}
+	rw, d := decodeR(buf), decodeD(buf)
+	if rw == nil || d == nil {
+		id := run.Add("seq", vgen.App("Meta.CSeq", vgen.N(uint64(w)), vgen.N(uint64(len(buf))), "[]", "[]",
+			"(Meta.mk_path 0 0 0 0 0 0 0 [] [])", "(Meta.mk_path 0 0 0 0 0 0 0 [] [])", "[]", "[]"), fmt.Sprint(w), false, nil)
+		run.Violate(id, "a well-formed path buffer is rejected by DecodeFromBytes", map[string]any{"word": w})
+		return
+	}
+	raw0, dec0 := viewRaw(rw, hi), viewDecoded(d, hi)
+	var obs []string
+	var trace []any
+	for _, o := range ops {
+		a, b := applyRaw(rw, o, hi), applyDec(d, o, hi)
+		obs = append(obs, vgen.Pair(a.term(), b.term()))
+		trace = append(trace, map[string]any{"op": o.name(), "raw": []uint64{a.Code, a.P.CI, a.P.CH},
+			"decoded": []uint64{b.Code, b.P.CI, b.P.CH}})
+		run.Tally("seq-op:" + o.name())
+	}
+	run.Tally("seq-ptr:" + ptrMode)
+	term := vgen.App("Meta.CSeq", vgen.N(uint64(w)), vgen.N(uint64(len(buf))), vgen.ListOf(is, infoTerm), hopsTerm(hs),
+		raw0.term(), dec0.term(), vgen.ListOf(ops, func(o seqOp) string { return o.term() }), vgen.List(obs))
+	run.Add("seq", term, fmt.Sprintf("%d/%x/%v", w, buf[4:min(len(buf), 40)], trace), nhops >= 2,
+		map[string]any{"word": w, "ptr": []uint32{ci, ch}, "ptr_mode": ptrMode, "seglen": []uint32{s.s0, s.s1, s.s2}, "steps": trace})
 }
